@@ -113,6 +113,12 @@ func (g *gstate) logon(kind string) Op {
 	if hb > 60 {
 		hb = g.r.Range(sc.Lo, 60)
 	}
+	if hb > 0 && hb < 20 { // no real timer may fire inside a logic scenario
+		hb += 20
+		if hb > sc.Hi {
+			hb = sc.Hi
+		}
+	}
 	enc := sc.Allowed[g.r.Intn(len(sc.Allowed))]
 	pw := "pw" + strconv.Itoa(g.r.Intn(5))
 	label := "logon-good"
@@ -141,10 +147,23 @@ func (g *gstate) logon(kind string) Op {
 		pw = sc.RefusedPw
 		enc = "5"
 		label = "logon-bad-enc"
+	case "no-enc", "empty-enc": // EncryptMethod left out, or sent without a value: not a permitted method
+		enc = ""
+		label = "logon-bad-enc"
 	case "edge-lo":
 		hb = sc.Lo
 	case "edge-hi":
 		hb = sc.Hi
+	case "unstartable": // within limits that admit it, but no timer can run with it
+		hb = -g.r.Intn(2)
+		if hb < sc.Lo {
+			hb = sc.Lo
+		}
+	}
+	// limits with a negative lower bound admit intervals with which the timers cannot be started:
+	// such a Logon is refused by a Reject naming HeartBtInt, like one outside the limits
+	if label == "logon-good" && hb <= 0 {
+		label = "logon-bad-hb"
 	}
 	if sc.Side == "I" {
 		if label != "logon-good" {
@@ -157,6 +176,9 @@ func (g *gstate) logon(kind string) Op {
 	}
 	sf, seq := g.seqField(skind)
 	body := "98=" + enc + "\x01108=" + g.num(hb) + "\x01"
+	if kind == "no-enc" {
+		body = "108=" + g.num(hb) + "\x01"
+	}
 	if g.r.Chance(1, 3) {
 		body += "141=" + []string{"Y", "N"}[g.r.Intn(2)] + "\x01"
 	}
@@ -218,7 +240,7 @@ func genScenario(r *rng.R) (*Scenario, []string) {
 	if r.Chance(1, 4) {
 		sc.Allowed = []string{"0", "3"}
 	}
-	lims := [][2]int{{20, 60}, {30, 30}, {25, 40}, {20, 1000}}
+	lims := [][2]int{{20, 60}, {30, 30}, {25, 40}, {20, 1000}, {-1, 60}, {-3, 30}}
 	l := lims[r.Intn(len(lims))]
 	sc.Lo, sc.Hi = l[0], l[1]
 	if r.Chance(1, 2) {
@@ -286,10 +308,13 @@ func genScenario(r *rng.R) (*Scenario, []string) {
 		switch {
 		case c < 14 && !unauth:
 			kinds := []string{"good", "good", "good", "edge-lo", "edge-hi"}
+			if sc.Lo < 0 {
+				kinds = append(kinds, "unstartable", "unstartable")
+			}
 			sc.Ops = append(sc.Ops, g.logon(kinds[r.Intn(len(kinds))]))
 			loggedGuess = true
 		case c < 24:
-			kinds := []string{"bad-enc", "bad-hb-lo", "bad-hb-hi", "refused", "bad-both", "damaged-cs", "damaged-len", "nonnumeric-hb", "refused-bad-hb", "refused-bad-enc"}
+			kinds := []string{"bad-enc", "bad-hb-lo", "bad-hb-hi", "refused", "bad-both", "damaged-cs", "damaged-len", "nonnumeric-hb", "refused-bad-hb", "refused-bad-enc", "no-enc", "empty-enc"}
 			k := kinds[r.Intn(len(kinds))]
 			if strings.HasPrefix(k, "refused") && sc.RefusedPw == "" {
 				k = "bad-enc"
@@ -420,6 +445,18 @@ func fixedScenarios() []*Scenario {
 	sc = base()
 	sc.Ops = []Op{logon(1), {Kind: "IN", Data: p.msg("5", "34=2", ""), Label: "logout", Seq: 2}, logon(3),
 		{Kind: "IN", Data: p.msg("1", "34=4", "112=10=123\x01"), Label: "testreq", Seq: 4, A: []byte("10=123")}}
+	out = append(out, sc)
+	// a long outbound history, then resend requests for early, middle and recent ranges: the store
+	// has every message however long the session lasts
+	sc = base()
+	sc.Ops = []Op{logon(1)}
+	for i := 0; i < 1300; i++ {
+		sc.Ops = append(sc.Ops, Op{Kind: "SEND", App: "H", A: []byte("k" + strconv.Itoa(i))})
+	}
+	sc.Ops = append(sc.Ops,
+		Op{Kind: "IN", Data: p.msg("2", "34=2", "7=2\x0116=4\x01"), Label: "resend", Seq: 2, ID: 2, Ev: 4},
+		Op{Kind: "IN", Data: p.msg("2", "34=3", "7=270\x0116=270\x01"), Label: "resend", Seq: 3, ID: 270, Ev: 270},
+		Op{Kind: "IN", Data: p.msg("2", "34=4", "7=1299\x0116=0\x01"), Label: "resend", Seq: 4, ID: 1299, Ev: 0})
 	out = append(out, sc)
 	return out
 }
